@@ -129,7 +129,10 @@ func (g *vgen) fieldID() int16 {
 
 // bigFlat builds a container with many small elements (counts around 512/1024/2048), outside the node budget.
 func (g *vgen) bigFlat(ty int8) ref.Value {
-	n := rapid.SampledFrom([]int{511, 512, 513, 1023, 1024, 1025, 1500, 2049}).Draw(g.t, "bigN")
+	n := rapid.SampledFrom([]int{255, 256, 257, 511, 512, 513, 1023, 1024, 1025, 1500, 2049, 4095, 4096, 4097, 65535, 65536, 65537}).Draw(g.t, "bigN")
+	if n > 5000 && ty != ref.LIST && ty != ref.SET {
+		n = 257
+	}
 	small := []int8{ref.BOOL, ref.BYTE, ref.I16, ref.I32, ref.I64, ref.DOUBLE, ref.STRING}
 	elem := func(t int8, i int) ref.Value {
 		if t == ref.STRING {
@@ -153,6 +156,9 @@ func (g *vgen) bigFlat(ty int8) ref.Value {
 		}
 	default:
 		v.ET = rapid.SampledFrom(small).Draw(g.t, "bigE")
+		if n > 5000 {
+			v.ET = rapid.SampledFrom([]int8{ref.BOOL, ref.BYTE, ref.I16}).Draw(g.t, "bigE1")
+		}
 		for i := 0; i < n; i++ {
 			v.Elems = append(v.Elems, elem(v.ET, i))
 		}
